@@ -50,3 +50,7 @@ def run(ctx):
                         'std::stringstream replaced by an empty stub (prelude.hpp): the stray `std::stringstream ss;` in occa::hash has no effect on the result',
                         'libstdc++ std::string code is the real header code compiled into the IR (-D_GLIBCXX_ASSERTIONS)']
     return C.finish(ctx)
+
+
+def relift(ctx):
+    return C.lift(ctx, 'C27', os.path.join(H, 'wrap.cpp'), ROOTS, ub=True)
